@@ -258,4 +258,11 @@ def r12_6(ctx):
            "the separator search runs over the whitespace after a number and nothing gives it back: the unchecked iterators / get return `1 ` for `[1 , 2]` while the checked ones return `1`")
 
 
-RULES = [("R12.1", r12_1), ("R12.2", r12_2), ("R12.3", r12_3), ("R12.4", r12_4), ("R12.5", r12_5), ("R12.6", r12_6)]
+def r12_s(ctx):
+    """clauses of the validating skipper behind the checked iterators (shared with C02): whitespace classifiers, value-start alphabet, \\u digits, closing bracket after whitespace, one-fraction discipline"""
+    from . import c02
+    for fn in (c02.r02_2, c02.r02_4, c02.r02_5, c02.r02_7, c02.r02_10):
+        ctx.include(fn, 'R12.S')
+
+
+RULES = [("R12.1", r12_1), ("R12.2", r12_2), ("R12.3", r12_3), ("R12.4", r12_4), ("R12.5", r12_5), ("R12.6", r12_6), ("R12.S", r12_s)]
